@@ -34,6 +34,7 @@ MODEL_MODE = 0 if os.environ.get("VERIF_C09_PINNED_MODEL") else 1
 KVALS = [0, 1, 2]
 JVALS = ["a", "b"]
 SORT_KEYS = ["none", "part", "rows"]
+SCHEMA_ID = 1         # abstract id of the schema of the history's frames (x int64, y float64); any other observed schema is 2
 MAX_FAILING = 25      # failing histories processed per run (the witnesses come first); the rest is only counted
 
 
@@ -170,10 +171,14 @@ def prefix_witnesses():
 def emptied_history(pcols, hid):
     def fr(ks, start):
         return [{"x": start + i, "y": 0.5, "k": k, "j": "a"} for i, k in enumerate(ks)]
-    return {"id": hid, "pcols": pcols, "confirmation": "emptied", "ops": [
+    return {"id": hid, "pcols": pcols, "ops": [
         {"op": "write", "frame": fr([0, 1, 0], 0), "offsets": [0, 2]},
         {"op": "remove", "sel_spec": [], "all": True, "sort_pnames": False},
-        {"op": "append", "frame": fr([1, 0], 3), "offsets": [0]}]}
+        {"op": "append", "frame": fr([1, 0], 3), "offsets": [0]},
+        {"op": "append", "frame": fr([0, 1, 1], 5), "offsets": [0, 2]}] + (
+        [{"op": "remove", "sel_spec": [], "all": True, "sort_pnames": True},
+         {"op": "overwrite", "frame": fr([1, 1], 8), "offsets": [0]},
+         {"op": "overwrite", "frame": fr([1, 0], 10), "offsets": [0]}] if pcols else [])}
 
 
 # ---------------------------------------------------------------------------------------------
@@ -214,7 +219,7 @@ def model_ops(h, resolved):
         if o["op"] == "writergs":
             out.append(["writergs", rgs, o["sort_key"], 1 if o["sort_pnames"] else 0])
         else:
-            out.append([o["op"], rgs])
+            out.append(["write", SCHEMA_ID, rgs] if o["op"] == "write" else [o["op"], rgs])
     return out
 
 
@@ -401,8 +406,8 @@ def run(ctx):
                 "remove_row_groups(subset, sort_pnames), write_row_groups(sort_key in none/partition/num_rows, sort_pnames)} with generated frames; a fresh "
                 "ParquetFile is opened for every step and for every observation; a case is (history, step); the initial write of a history is the only trivial one; "
                 "partition values are drawn per history from pools of which two hold prefix-related texts (k in 1/10/11/2/21, j in a/ab/abc/b) and every new frame "
-                "from the whole pool, one value only, or a random subset; plus the DESIGN witness history, 3 prefix-value witness histories and 2 confirmation "
-                "histories for the open finding (dataset emptied, then append)")
+                "from the whole pool, one value only, or a random subset; plus the DESIGN witness history, 3 prefix-value and 5 value-kind witness histories and 2 "
+                "histories that empty the dataset and append again (finding fixed by 05c32a7)")
     hs = [design_witness(), emptied_history(["k"], 900002), emptied_history([], 900003)] + prefix_witnesses() + kind_witnesses() + [gen_history(rng, i) for i in range(nh)]
     cdir = os.path.join(C.VERIF, "corpus", "C09")
     if os.path.isdir(cdir):
@@ -454,8 +459,13 @@ def run(ctx):
         if not isinstance(mo, list) or len(mo) != len(h["ops"]):
             ctx.correspondence("edit_hist answers one record per step", {"history": h["id"]}, len(h["ops"]), mo)
             continue
+        diverged = False       # names / summary left the model but the property still held: later steps are judged by the oracle only
         for si, (o, obs, m) in enumerate(zip(h["ops"], res["steps"], mo)):
-            acc, mdir, msum, mnum, minv, mread, mabs, mspec = m
+            acc, mdir, msum, mnum, minv, mread, mabs, mspec, msch, mpart = m
+            ref_schema = res["steps"][0].get("schema")
+
+            def sid(x):
+                return SCHEMA_ID if (x is not None and x == ref_schema) else 2
             short = {"history": h["id"], "step": si, "op": o["op"], "pcols": h["pcols"], "sort_pnames": o.get("sort_pnames"), "sort_key": o.get("sort_key")}
             case = {"history": {"id": h["id"], "pcols": h["pcols"], "ptypes": h.get("ptypes"), "ops": h["ops"][:si + 1]}, "step": si}
             ctx.case({"h": h["ops"][:si + 1], "p": h["pcols"]}, trivial=si == 0)
@@ -474,6 +484,11 @@ def run(ctx):
                           "emptied_before": bool(emptied), "sort_pnames": bool(o.get("sort_pnames") or o["op"] == "overwrite")},
                          {**case, "observed": {"raised": obs["raised"], "summary": obs.get("summary"), "files": {k: v.get("ids") for k, v in obs["files"].items()},
                                                "num_rows": obs.get("num_rows"), "read": obs.get("read")}}, text)
+            if diverged:
+                if problems:
+                    nfailing += 1 if newfail else 0
+                    break
+                continue
             # the model's own claims
             if not minv:
                 ctx.correspondence("check_inv(model state) = true after every step", short, 1, minv)
@@ -486,6 +501,12 @@ def run(ctx):
                 break
             rsum = [[p, ids] for p, _, ids in obs["summary"]]
             rdir = sorted([p, f["ids"]] for p, f in obs["files"].items())
+            mfiles = files_sx(mdir)                     # model content of a file = schema id :: row ids
+            ctx.correspondence("schema ids (summary, every data file): model = real", short,
+                               [msch, sorted([p, c[0] if c else None] for p, c in mfiles)],
+                               [sid(obs.get("schema")),
+                                sorted([p, sid(f.get("schema"))] for p, f in obs["files"].items())])
+            mdir = [[p.encode(), c[1:]] for p, c in mfiles]
             ok &= ctx.correspondence("summary row-group list (path, rows read through the summary): model = real", short, files_sx(msum), rsum)
             ok &= ctx.correspondence("directory listing (path -> rows held): model = real", short, sorted(files_sx(mdir)), rdir)
             ctx.correspondence("summary up to file names (partition directory, rows): model = real", short,
@@ -495,9 +516,12 @@ def run(ctx):
             ctx.correspondence("num_rows field: model = real", short, mnum, obs["num_rows"])
             if spec is not None and acc:
                 ctx.correspondence("abs(model state) = spec_step (plain model) on this history", short, files_sx(mabs), spec)
-            if problems or not ok:
-                nfailing += 1 if (newfail or not ok) else 0       # reproductions of an open finding do not use up the cap
-                break            # the real state has left the model: later steps of this history say nothing new
+            if problems:
+                nfailing += 1 if newfail else 0                   # reproductions of an open finding do not use up the cap
+                break            # the real state has left the plain model: later steps of this history say nothing new
+            if not ok:
+                nfailing += 1
+                diverged = True
 
 
 def replay(rep):
